@@ -32,6 +32,7 @@ struct IoScript {
 	int err_no = EIO;
 	long calls = 0;
 	std::string written;       // bytes received by write()
+	bool file_mode = false;    // script applies to reads on whatever descriptor the library opened
 	bool overrun = false;      // write() was offered bytes beyond the buffer it announced
 	size_t max_count_seen = 0;
 } g_io;
@@ -41,6 +42,23 @@ ssize_t __real_read(int, void *, size_t);
 ssize_t __real_write(int, const void *, size_t);
 ssize_t __wrap_read(int fd, void *buf, size_t count)
 {
+	if (g_io.active && g_io.file_mode && fd != MAGIC_FD)
+	{
+		// json_object_from_file: the library opened a real file itself; its reads are shortened / failed per script
+		long n = g_io.calls++;
+		if (n == g_io.err_at)
+		{
+			errno = g_io.err_no;
+			return -1;
+		}
+		size_t want = g_io.sizes.empty() ? count : g_io.sizes[(size_t)n % g_io.sizes.size()];
+		if (want < 1)
+			want = 1;
+		ssize_t r = __real_read(fd, buf, std::min(want, count));
+		if (r > 0)
+			g_io.rpos += (size_t)r;
+		return r;
+	}
 	if (fd != MAGIC_FD || !g_io.active)
 		return __real_read(fd, buf, count);
 	long n = g_io.calls++;
@@ -109,23 +127,47 @@ static bool fresh_message()
 	return !m.empty() && m != g_sentinel;
 }
 
-static void check_read(Ctx &ctx, const std::string &bytes, const std::vector<size_t> &sizes, long err_at, int err_no, int depth, bool use_ex)
+static void check_read(Ctx &ctx, const std::string &bytes, const std::vector<size_t> &sizes, long err_at, int err_no, int depth, bool use_ex, bool via_file = false)
 {
 	g_io = IoScript();
-	g_io.active = true;
 	g_io.data = bytes;
 	g_io.sizes = sizes;
 	g_io.err_at = err_at;
 	g_io.err_no = err_no;
+	int mfd = -1;
+	std::string path;
+	if (via_file)
+	{
+		// a real (memory) file holding the bytes, opened by the library itself through its path
+		mfd = memfd_create("c20r", 0);
+		if (mfd < 0 || __real_write(mfd, bytes.data(), bytes.size()) != (ssize_t)bytes.size())
+		{
+			if (mfd >= 0)
+				close(mfd);
+			return;
+		}
+		path = "/proc/self/fd/" + str(mfd);
+		g_io.file_mode = true;
+		use_ex = false;
+	}
 	size_t fds0 = count_fds();
 	plant_sentinel();
-	json_object *o = use_ex ? json_object_from_fd_ex(MAGIC_FD, depth) : json_object_from_fd(MAGIC_FD);
+	g_io.active = true;
+	json_object *o = via_file ? json_object_from_file(path.c_str()) : use_ex ? json_object_from_fd_ex(MAGIC_FD, depth) : json_object_from_fd(MAGIC_FD);
 	g_io.active = false;
+	struct CloseMfd {
+		int fd;
+		~CloseMfd()
+		{
+			if (fd >= 0)
+				close(fd);
+		}
+	} closer{mfd};
 	std::string msg = last_err();
 	std::string sc = "read script sizes=";
 	for (size_t i = 0; i < std::min<size_t>(sizes.size(), 8); i++)
 		sc += str(sizes[i]) + ",";
-	sc += " error at call " + str(err_at) + " (errno " + str(err_no) + ") depth " + (use_ex ? str(depth) : std::string("default")) + " document " + quote(bytes, 200) +
+	sc += std::string(via_file ? " [json_object_from_file]" : "") + " error at call " + str(err_at) + " (errno " + str(err_no) + ") depth " + (use_ex ? str(depth) : std::string("default")) + " document " + quote(bytes, 200) +
 	      " (" + str(bytes.size()) + " bytes)";
 	bool error_injected = err_at >= 0 && err_at < g_io.calls;
 	if (error_injected)
@@ -306,8 +348,11 @@ void run_case(Choices &c, Ctx &ctx)
 		long err_at = c.coin(25) ? (long)c.range(0, 12) : -1;
 		int depth = c.coin(70) ? 32 : (int)c.irange(-2, 8);
 		bool use_ex = c.coin(60);
-		ctx.note("read " + quote(bytes, 300) + " sizes " + str(sizes.size()) + " err_at " + str(err_at) + " depth " + str(depth));
-		check_read(ctx, bytes, sizes, err_at, ERRS[c.pickn(5)], depth, use_ex);
+		bool via_file = c.coin(25);
+		ctx.note("read " + quote(bytes, 300) + " sizes " + str(sizes.size()) + " err_at " + str(err_at) + " depth " + str(depth) + (via_file ? " via json_object_from_file" : ""));
+		check_read(ctx, bytes, sizes, err_at, ERRS[c.pickn(5)], depth, use_ex, via_file);
+		if (via_file)
+			ctx.label("read_via_from_file");
 		if (err_at >= 0)
 			ctx.label("read_error_injected");
 		nt = !sizes.empty() || err_at >= 0;
